@@ -141,6 +141,8 @@ class TreeStorage(BaseStorage):
         self.num_feature_names = num_feature_names
         self._leaf_reservoir_length = leaf_reservoir_length
         self._seen_samples = 0
+        if seed is None:  # draw the seed from the global generator, such that results are reproducible from its seed
+            seed = random.randrange(2 ** 32)
 
         self._storage_x = {cat_feature: HoeffdingAdaptiveTreeClassifier(
             max_depth=max_depth, leaf_prediction='nba', binary_split=True,
